@@ -711,6 +711,51 @@ pub fn literal_loop_family() -> Vec<Node> {
     out
 }
 
+/// Alternations whose branches share a leading element that can end in more than one place
+/// (`a+b|a+c`): regex-syntax rewrites them to `a+(?:b|c)` when they are delegated, which is not
+/// the same thing under leftmost-first semantics (finding FY). Bare, grouped, followed by a
+/// literal, and with a word boundary in a branch (so that the VM compiles the alternation itself).
+pub fn common_prefix_alt_family() -> Vec<Node> {
+    let prefixes = vec![
+        Repeat(b(Node::lit("a")), 1, None, Mode::Greedy),
+        Repeat(b(Node::lit("a")), 0, None, Mode::Greedy),
+        Repeat(b(Node::class("[ab]")), 1, None, Mode::Greedy),
+        Repeat(b(Node::class("[ab]")), 0, None, Mode::Lazy),
+        Repeat(b(Any(false)), 1, None, Mode::Greedy),
+        Repeat(b(Node::lit("a")), 1, Some(2), Mode::Greedy),
+        Repeat(b(Node::class("\\w")), 1, None, Mode::Greedy),
+        NonCap(b(Alt(vec![Node::lit("a"), Node::lit("ab")]))),
+        // controls outside the class: fixed-size prefixes
+        Node::lit("a"),
+        Repeat(b(Node::class("[ab]")), 2, Some(2), Mode::Greedy),
+    ];
+    let tails: Vec<(Vec<Node>, Vec<Node>)> = vec![
+        (vec![Node::lit("b")], vec![Node::lit("a")]),
+        (vec![Node::lit("b")], vec![Assert(A::EndText)]),
+        (vec![Node::lit("b")], vec![Assert(A::WordB)]),
+        (vec![Node::lit("b"), Assert(A::NotWordB)], vec![Assert(A::WordB)]),
+        (vec![Node::lit("b")], vec![Node::lit("b"), Node::lit("a")]),
+        (vec![Node::group(Node::lit("b"))], vec![Node::group(Node::lit("a"))]),
+    ];
+    let mut out = vec![];
+    for p in &prefixes {
+        for (x, y) in &tails {
+            let br = |t: &Vec<Node>| {
+                let mut v = vec![p.clone()];
+                v.extend(t.iter().cloned());
+                Concat(v)
+            };
+            let alt = Alt(vec![br(x), br(y)]);
+            out.push(alt.clone());
+            out.push(Concat(vec![NonCap(b(alt.clone())), Node::lit("-")]));
+            out.push(Concat(vec![Node::group(alt.clone()), Repeat(b(Backref(1)), 0, Some(1), Mode::Greedy)]));
+            out.push(Concat(vec![Look(b(Empty), false, false), NonCap(b(alt.clone()))]));
+            out.push(Alt(vec![br(x), br(y), br(&vec![Node::lit("-")])]));
+        }
+    }
+    out
+}
+
 /// All ways of putting ONE run of two or more adjacent elements of one concatenation (at any
 /// depth) into a non-capturing group: `abc` -> `(?:ab)c`, `a(?:bc)`. The group has no flags,
 /// so nothing may change. (A KeepOut or a conditional reference is never moved into a group:
